@@ -165,6 +165,52 @@ Section Derive.
     end.
 End Derive.
 
+(** ** Call histories
+
+    [SeedFromPhrase] writes into a seed array the caller owns and [KeyFromSeed] reads such an
+    array: a wallet reuses one array for several phrases, overwrites it in place, and derives
+    keys from several arrays in any interleaving.  A history is a list of such calls on
+    numbered buffers; the model derives every key from the *current contents* of the buffer it
+    is given and from nothing else (no state survives a call).  The harness runs the same
+    histories on the real functions. *)
+Inductive hop :=
+| HLoad (b : N) (ts : list token)      (* SeedFromPhrase(&buf[b], phrase): overwrites on success, leaves the buffer alone on error *)
+| HWrite (b : N) (bytes : list N)      (* the caller overwrites buf[b] in place *)
+| HKey (b : N) (i : N).                (* KeyFromSeed(&buf[b], i) *)
+
+Definition hstate := N -> list N.
+Definition hupd (st : hstate) (b : N) (v : list N) : hstate := fun x => if x =? b then v else st x.
+(** does the call write to buffer [b]? *)
+Definition hwrites (op : hop) (b : N) : bool :=
+  match op with HLoad b' _ | HWrite b' _ => b' =? b | HKey _ _ => false end.
+
+Section Histories.
+  Variable cks : N -> N -> N.
+  Variable H : list N -> list N.
+  Variables (Key : Type) (newkey : list N -> Key).
+
+  Definition hstep (st : hstate) (op : hop) : hstate * list Key :=
+    match op with
+    | HLoad b ts =>
+        match seed_from_phrase cks H ts with
+        | Some s => (hupd st b s, [])
+        | None => (st, [])
+        end
+    | HWrite b bytes => (hupd st b bytes, [])
+    | HKey b i => (st, [key_from_seed H Key newkey (st b) i])
+    end.
+
+  (** the keys returned by the [HKey] calls of a history, in order *)
+  Fixpoint hrun (st : hstate) (ops : list hop) : hstate * list Key :=
+    match ops with
+    | [] => (st, [])
+    | op :: ops' =>
+        let '(st', ks) := hstep st op in
+        let '(st'', ks') := hrun st' ops' in
+        (st'', ks ++ ks')
+    end.
+End Histories.
+
 (** ** The one-line specification the theorems relate the code to *)
 
 (** the 128-bit big-endian integer *)
